@@ -9,7 +9,8 @@
 (* failure that is not one of the documented benign races must fail the sync.            *)
 EXTENDS Integers, Sequences, FiniteSets, TLC, Json
 
-CONSTANTS Bases,     \* subset of {"compInPlace", "compRecreate", "compRolling", "decorator"}  (compRolling: the child kind
+CONSTANTS Bases,     \* subset of {"compInPlace", "compRecreate", "compRolling", "compFinalize", "decorator"}  (compFinalize: the parent is
+                     \* being deleted, the finalize hook drains the children and then the finalizer is removed; compRolling: the child kind
                      \* is updated RollingRecreate, so the sync goes through ControllerRevisions and per-revision hook calls)
           Codes,     \* subset of {404, 409, 410, 422, 500, 0}      (0 = transport error / timeout)
           HookCodes, \* subset of {500, 429, 0, 404}
@@ -18,7 +19,11 @@ CONSTANTS Bases,     \* subset of {"compInPlace", "compRecreate", "compRolling",
 \* requests of the faulty sync, addressed by verb / kind / name / occurrence
 T(v, k, n, i) == [verb |-> v, kind |-> k, name |-> n, nth |-> i]
 Targets(b) ==
-  IF b = "decorator"
+  IF b = "compFinalize"
+  THEN {T("delete", "Thing", "d", 1), T("delete", "Thing", "e", 1),          \* first sync: the finalize hook wants nothing
+        T("get", "Parent", "p", 1), T("updateStatus", "Parent", "p", 1),     \* its status write
+        T("get", "Parent", "p", 2), T("update", "Parent", "p", 1)}           \* second sync: finalized, the finalizer is removed (live read, then write)
+  ELSE IF b = "decorator"
   THEN {T("get", "Parent", "p", 1), T("update", "Parent", "p", 1),            \* finalizer add
         T("updateStatus", "Parent", "p", 1), T("update", "Parent", "p", 2),   \* decorate: status, then labels/annotations
         T("delete", "Thing", "e", 1), T("create", "Thing", "a", 1),
@@ -42,7 +47,11 @@ Benign(t, c) == \/ c = 404
 MustError(t, c) == ~Benign(t, c) /\ ~(c = 409 /\ t.verb = "get")
 \* ---- the code as written ------------------------------------------------------------------
 CodeErr(b, t, c) ==
-  CASE c \in {500, 0, 422} -> TRUE
+  CASE b = "compFinalize" -> \/ c \in {500, 0, 422}
+                             \/ (c = 409 /\ t.verb = "delete")                \* (a conflict on the finalizer write is retried on a fresh read)
+                             \/ (c = 404 /\ t.kind = "Parent" /\ (t.verb = "update" \/ t.nth = 2))   \* the finalizer cannot be removed from a parent that is gone
+                             \/ c = 410
+    [] c \in {500, 0, 422} -> TRUE
     [] c = 404 -> \/ (b # "decorator" /\ t.kind = "Parent" /\ t.verb \in {"get", "update"} /\ t.nth < 3)   \* finalizer sync / recheck cannot proceed
                   \/ (b = "decorator" /\ t.kind = "Parent" /\ (t.verb = "get" \/ (t.verb = "update" /\ t.nth = 1)))
                   \/ t.verb = "create"
